@@ -200,8 +200,11 @@ class State:
 
 class SymEx:
     def __init__(self, prog, inline_depth=4, inline_max_blocks=60, inline_pred=None, loop_visits=2,
-                 max_paths=MAX_PATHS, eff=None, havoc_loops=False, inner_diverge=False, trip_events=False, emit_cut=False):
+                 max_paths=MAX_PATHS, eff=None, havoc_loops=False, inner_diverge=False, trip_events=False, emit_cut=False, precise_heap=False):
         self.prog = prog
+        # precise_heap: a read of a sub-place of a heap location that was overwritten on this path (`self.head = x; match self.head { Some(h) => ..`)
+        # projects the value written, so that every term denotes a PRE-state value (needed for rules that compare the final heap with the initial one)
+        self.precise_heap = True if precise_heap else None
         # trip_events: record an event ('trip', body, header block) each time a loop header of the analysed body is entered again;
         # emit_cut: also output the path prefixes abandoned at the loop-revisit bound (Path.diverged == 'cut') -- for rules about what happens
         # BETWEEN consecutive iterations of a loop that may go round any number of times
@@ -281,7 +284,7 @@ class SymEx:
             return v if v is not None else ('unk', 'uninit:%s:_%d' % (key[1], key[2]))
         if k in ('fld', 'payload', 'index'):
             base = key[1]
-            bv = self.load(st, base, b) if self._rooted_in_local(base) else base
+            bv = self.load(st, base, b) if self._rooted_in_local(base) else (self._current(st, base, b) if self.precise_heap is not None else base)
             if bv is not base or (isinstance(bv, tuple) and bv and bv[0] in ('aggr', 'tuple', 'closure', 'ovfpair')):
                 if k == 'fld':
                     r = self._proj_value(st, bv, key[2], None, b)
@@ -292,6 +295,17 @@ class SymEx:
                 return r
         if st.hh and not self._rooted_in_local(key) and k in ('fld', 'payload', 'index'):
             return ('havoc', key)
+        return key
+
+    def _current(self, st, key, b):
+        """precise_heap: the value now stored in a location that is not rooted in a local (the written value, or a projection of the value
+        written to an enclosing location); the key itself when nothing on this path overwrote it."""
+        if key in st.heap:
+            return st.heap[key]
+        if isinstance(key, tuple) and key and key[0] in ('fld', 'payload') and isinstance(key[1], tuple):
+            inner = self._current(st, key[1], b)
+            if inner is not key[1]:
+                return self._proj_value(st, inner, key[2], None, b) if key[0] == 'fld' else self._proj_value(st, inner, key[3], key[2], b)
         return key
 
     def _rooted_in_local(self, key):
@@ -353,6 +367,12 @@ class SymEx:
         for e in pl.get('p', []):
             if e == '*':
                 key = self.load(st, key, b)
+                if self.precise_heap is not None and isinstance(key, tuple) and key and key[0] == 'ref':
+                    key = key[1]
+                elif self.precise_heap is not None and isinstance(key, tuple) and key and key[0] != 'val' and not self._rooted_in_local(key):
+                    # what is dereferenced is a pointer VALUE; the projections that follow name locations inside its referent.  The marker keeps
+                    # the two apart: a value that was read before a location was overwritten is not re-read through it
+                    key = ('val', key)
                 continue
             if isinstance(e, dict):
                 if 'downcast' in e:
@@ -432,6 +452,10 @@ class SymEx:
                 v = self.load(st, key, b)
                 if v[0] in ('param', 'fld', 'payload', 'call', 'unk', 'index') and not self._is_scalar_local(self.prog.bodies.get(key[1], b), key[2]):
                     return v
+            if self.precise_heap is not None and isinstance(key, tuple) and key and key[0] not in ('ref', 'val') and not self._rooted_in_local(key):
+                # precise mode: the ADDRESS of a location (dereferencing it gives the location back), kept apart from the pre-state CONTENT of
+                # the same location, which is written as the same path
+                return ('ref', key)
             return key
         if k == 'cast':
             v = self.operand(b, st, rv['op'])
@@ -790,8 +814,11 @@ class SymEx:
         raw = [self.operand(b, st, a) for a in t['args']]
         # values as seen by code we do not step into: references to our own locals are replaced by
         # the current content of those locals
-        args = [self.localval(st, a, b) for a in raw]
         targets, ext, passed = prog.call_targets(b, t)
+        if self.precise_heap is not None and ext:
+            # code that is modelled, not stepped into, receives references as the place keys they are
+            raw = [a[1] if isinstance(a, tuple) and len(a) == 2 and a[0] == 'ref' else a for a in raw]
+        args = [self.localval(st, a, b) for a in raw]
         dest = t['dest']
         target = t.get('target')
         line = t.get('line')
@@ -1012,6 +1039,8 @@ class SymEx:
         last = ext.split('::')[-1]
         dest = t['dest']
         line = t.get('line')
+        if self.precise_heap is not None:
+            args = [a[1] if isinstance(a, tuple) and len(a) == 2 and a[0] == 'ref' else a for a in args]
 
         def resume(s2, val):
             self.write_place(b, s2, dest, val, line, record=False)
